@@ -652,7 +652,10 @@ Definition insert_entry (axis : key) (position : Z) (data_axes0 : list key)
   : option (centry * option (key * list key)) :=
   match e with
   | (t, k, PArr (Some sh) true bnd) =>
-      if is_array t then
+      (* "if construct.construct_type == 'dimension_coordinate': continue" - a
+         dimension coordinate always has 1-dimensional data: neither it nor its
+         data axes are touched *)
+      if is_array t && negb (ctype_eqb t DimCoord) then
         match assoc k cax with
         | None => None                       (* get_data_axes(key) raises mid-loop *)
         | Some ca =>
